@@ -152,6 +152,14 @@ impl Layer for InviteLayer {
     }
 }
 
+#[cfg(feature = "ezk-verif")]
+impl InviteLayer {
+    /// Number of pending-cancel entries
+    pub fn verif_counts(&self) -> usize {
+        self.cancellables.lock().len()
+    }
+}
+
 impl InviteLayer {
     async fn handle_cancel(
         &self,
